@@ -237,9 +237,16 @@ def run(prog: Program, rep, thorough: bool) -> None:
         r, st = ev.call_value(row, [], kw, st=st)
     except Undecided as exc:
         raise AnalysisError(f'create_trajectory_row: {exc}') from exc
-    if not isinstance(r, Inst) or r.cls.name != 'TrajectoryData':
+    alts = [x for _cp, x in cond_leaves(r)]
+    if not alts or not all(isinstance(x, Inst) and x.cls.name == 'TrajectoryData' for x in alts):
         raise AnalysisError(f'create_trajectory_row returns {r!r}')
-    fields = st.heap[r.oid]
+
+    class _Fields:
+        """Columns of the row(s) returned: a row built in several branches gives guarded columns."""
+        @staticmethod
+        def get(fld):
+            return ev.lift(lambda row_: st.heap[row_.oid].get(fld), r)
+    fields = _Fields()
     spec_env = {k: S(k) for k in ('t', 'x', 'y', 'z', 'vx', 'vy', 'vz', 'v', 'a', 'spin', 'L', 'rho', 'drag', 'w', 'flag')}
     spec_env['G_FT'] = Scalar(G_FT)
     td_fields = prog.namedtuple_fields(prog.cls(C.M_TD, 'TrajectoryData'))
@@ -251,11 +258,11 @@ def run(prog: Program, rep, thorough: bool) -> None:
         want = ev.eval_text(text, dict(spec_env), tc, State())
         got = fields.get(fld)
         if dim is not None:
-            if not isinstance(got, Inst) or got.cls.name != dim:
+            if got is None or not all(isinstance(x, Inst) and x.cls.name == dim for _cp, x in cond_leaves(got)):
                 rep.fail('C05.R1', tc.path, row.node.lineno, row.qualname, fld,
                          f'column {fld} is {got!r}, expected a {dim}')
                 continue
-            got = st.heap[got.oid].get('_value')
+            got = ev.lift(lambda q_: st.heap[q_.oid].get('_value'), got)
             want, _cn = _unit_raw(ev, prog, uname, want)
             want = _principal(want)
         msg = _same_cases(ev, got, want, TOL.get(fld, DEFAULT_TOL))
